@@ -130,6 +130,12 @@ def time_courses(draw, mode=None, tier="quick"):
             md = draw(st.sampled_from([None, "inf", gen.r6(0.5 * s), gen.r6(2 * s)]))
         else:
             md = draw(st.sampled_from([None, "inf", 0.0, gen.r6(0.3 * s), gen.r6(s), gen.r6(3 * s), 1e6]))
+            pairs = [(k, i, j) for k in range(len(frames) - 1) for i in range(len(frames[k])) for j in range(len(frames[k + 1]))]
+            if pairs and draw(st.booleans()):
+                # a cut-off just below / exactly at / just above the distance of an actual pair of consecutive frames
+                k, i, j = pairs[draw(st.integers(0, len(pairs) - 1))]
+                dij = float(np.linalg.norm(np.array(frames[k][i]["position"]) - np.array(frames[k + 1][j]["position"])))
+                md = float(dij * draw(st.sampled_from([0.97, 1.0, 1.03, 1.08])))
     spec = {
         "mode": mode,
         "dim": dim,
